@@ -549,6 +549,27 @@ class ExprMixin:
     def e_DictComp(self, e):
         raise Unsupported("dict comprehension")
 
+    def _havoc_written(self, writes, idx):
+        """Writes performed for the arbitrary element happen for every element: forget those heap parts."""
+        for (kind, ref, name) in writes:
+            if kind == "field":
+                self.st.fields[name] = self.ctx.fresh("hvF_" + name, ArrIV)
+                self.st.writes.append(("field*", None, name))
+            elif kind == "list":
+                if ref is not None and not _mentions(ref, idx):
+                    self.apply_havoc([("list", VRef(ref))])
+                else:
+                    self.apply_havoc([("list*",)])
+                    self.st.writes.append(("list*", None, None))
+            elif kind == "dict":
+                if ref is not None and not _mentions(ref, idx):
+                    self.apply_havoc([("dict", VRef(ref))])
+                else:
+                    self.apply_havoc([("dict*",)])
+                    self.st.writes.append(("dict*", None, None))
+            elif kind in ("field*", "list*", "dict*", "all"):
+                self.apply_havoc([(kind,) if kind != "field*" else ("field*", name)])
+
     def comprehension(self, e, kind):
         if len(e.generators) != 1:
             raise Unsupported("nested comprehension")
@@ -568,30 +589,54 @@ class ExprMixin:
                         out.append(self.eval(e.elt))
                 return self.st.new_list(out, kind)
             # arbitrary element: obligations inside the element expression are checked once for an
-            # arbitrary index; the resulting list is abstract except for its length (no filter) and
-            # the element at that arbitrary index.
+            # arbitrary index idx (for-each lifting).  Result: without a filter, length n and - when the
+            # element expression evaluated without case split or allocation - exactly the mapped array
+            # (lambda j. elt[j/idx]); otherwise an abstract array known only at idx.  Heap parts written by
+            # the element expression are written for *every* element, so they are havocked afterwards.
             idx = self.ctx.fresh("comp_i", I)
             self.ctx.assume(z3.And(idx >= 0, idx < seq.length))
             self.assign_target(g.target, seq.element(idx))
+            w0, pos0, id0 = len(self.st.writes), self.ctx.pos, getattr(self.st, 'n_data_alloc', 0)
+            passes = all(self.ctx.branch(self.truth(self.eval(c), c), "comp-if") for c in g.ifs)
+            elt = self.eval(e.elt) if passes else None
+            forked = any(d[1] for d in self.ctx.trace[pos0:]) or self.ctx.pos != pos0 and \
+                any(True for d in self.ctx.trace[pos0:] if d[1])
+            pure = (not forked) and getattr(self.st, 'n_data_alloc', 0) == id0 and not g.ifs
+            self._havoc_written(self.st.writes[w0:], idx)
             rid = self.st.alloc(self.table.id(kind))
             r = z3.IntVal(rid)
-            arr = self.ctx.fresh("comp_arr", ArrIV)
-            ln = self.ctx.fresh("comp_len", I)
-            self.st.lel = z3.Store(self.st.lel, r, arr)
-            self.st.llen = z3.Store(self.st.llen, r, ln)
-            self.ctx.assume(z3.And(ln >= 0, ln <= seq.length))
-            passes = all(self.ctx.branch(self.truth(self.eval(c), c), "comp-if") for c in g.ifs)
-            if passes:
-                elt = self.eval(e.elt)
-                if not g.ifs:
+            if pure and elt is not None:
+                j = z3.Int("j!comp")
+                arr = z3.Lambda([j], z3.substitute(elt, (idx, j)))
+                ln = seq.length
+            else:
+                arr = self.ctx.fresh("comp_arr", ArrIV)
+                ln = self.ctx.fresh("comp_len", I)
+                self.ctx.assume(z3.And(ln >= 0, ln <= seq.length))
+                if not g.ifs and elt is not None:
                     self.ctx.assume(ln == seq.length)
                     self.ctx.assume(z3.Select(arr, idx) == elt)
+            self.st.lel = z3.Store(self.st.lel, r, arr)
+            self.st.llen = z3.Store(self.st.llen, r, ln)
+            if elt is not None:
                 self.st.ghost.setdefault("comp_witness", {})[rid] = (idx, elt, seq)
-            else:
-                self.ctx.assume(ln < seq.length) if False else None
             return VRef(rid)
         finally:
             self.frames.pop()
+
+
+def _mentions(term, const):
+    seen = set()
+    todo = [term]
+    while todo:
+        t = todo.pop()
+        if t.get_id() in seen:
+            continue
+        seen.add(t.get_id())
+        if t.eq(const):
+            return True
+        todo.extend(t.children())
+    return False
 
 
 class _LambdaInfo:
